@@ -36,8 +36,8 @@ def run(ctx) -> None:
     asm_mc.design_level(ctx, "moves", L)
     tlc_progs = asm_mc.programs(ctx, "moves", L)
     # a *= to exactly the address that @=-relocated code has reached, followed by more bytes (one statement deeper)
-    asm_mc.design_level(ctx, "moves2", 5 if ctx.quick else 8)
-    tlc_progs += asm_mc.programs(ctx, "moves2", 5 if ctx.quick else 8)
+    asm_mc.design_level(ctx, "moves2", 5 if ctx.quick else 6)
+    tlc_progs += asm_mc.programs(ctx, "moves2", 5 if ctx.quick else 6)
     progs = tlc_progs + programs(ctx, 400 if ctx.quick else 6000)
     ctx.extra["tlc_enumerated_programs"] = len(tlc_progs)
     res = asmfam.observe(progs)
